@@ -719,6 +719,101 @@ func limitCases(r *vh.Run, i int) {
 	}
 }
 
+// responseCollision: a manifest a client pushed may have the very bytes of a referrers answer the registry generates
+// itself - the empty OCI index is what is stored for a subject whose last referrer was deleted, and what a Go client
+// marshals for an index without manifests.  The client's manifest was acknowledged and never deleted: it stays
+// addressable by digest (C02), also after its only tag was deleted (C03), whatever happens to the referrers of some
+// subject.
+func responseCollision(r *vh.Run, i int) {
+	kind := []vh.StoreKind{vh.Mem, vh.Dir, vh.MemDir}[i%3]
+	byTag := (i/3)%2 == 1   // pushed under a tag that is deleted later, or by digest
+	before := (i/6)%2 == 1  // pushed before the registry generated the same bytes, or after
+	reload := (i/12)%2 == 1 // directory store: a pause that makes the next request re-read index.json
+	root := ""
+	if kind != vh.Mem {
+		root = r.TempDir("coll")
+		defer vh.RemoveAll(root)
+	}
+	srv := vh.New(vh.Conf(kind, root, vh.Neutral))
+	defer func() { _ = srv.Close() }()
+	wit := map[string]any{"trial": i, "store": kind.String(), "pushed_by_tag": byTag, "pushed_before_the_answer_existed": before}
+	var trace []string
+	do := func(rq vh.Req) vh.Resp {
+		rs := vh.Do(srv, rq)
+		trace = append(trace, fmt.Sprintf("%s = %d", vh.ShortReq(rq), rs.Status))
+		return rs
+	}
+	acc := map[string]string{"Accept": vh.AcceptAll}
+	cfg := &vh.Blob{Name: "cfg", B: []byte(fmt.Sprintf("collision config %d", i))}
+	cfg.D = vh.DigestOf("sha256", cfg.B)
+	img := vh.MkImage("img", "sha256", vh.MTImage, cfg, vh.MTConfig, nil, "", "", map[string]string{"n": fmt.Sprint(i)})
+	E := []byte(`{"schemaVersion":2,"mediaType":"application/vnd.oci.image.index.v1+json","manifests":[]}`)
+	ED := vh.DigestOf("sha256", E)
+	art := func(k int) *vh.Man {
+		return vh.MkImage(fmt.Sprint("art", k), "sha256", vh.MTImage, cfg, vh.MTConfig, nil, img.D, "application/x.a", map[string]string{"k": fmt.Sprint(i, k)})
+	}
+	pushE := func() bool {
+		u := "/v2/c/manifests/" + ED
+		if byTag {
+			u = "/v2/c/manifests/scratch"
+		}
+		return do(vh.Req{Method: "PUT", URL: u, H: map[string]string{"Content-Type": vh.MTIndex}, Body: E}).Status == 201
+	}
+	do(vh.Req{Method: "POST", URL: "/v2/c/blobs/uploads/?digest=" + cfg.D, Body: cfg.B})
+	if do(vh.Req{Method: "PUT", URL: "/v2/c/manifests/img", H: map[string]string{"Content-Type": img.MT}, Body: img.Raw}).Status != 201 {
+		r.Inconclusive("responseCollision: image refused")
+		return
+	}
+	if before && !pushE() {
+		r.Inconclusive("responseCollision: empty index refused")
+		return
+	}
+	a1 := art(1)
+	s1 := do(vh.Req{Method: "PUT", URL: "/v2/c/manifests/" + a1.D, H: map[string]string{"Content-Type": a1.MT}, Body: a1.Raw}).Status
+	s2 := do(vh.Req{Method: "DELETE", URL: "/v2/c/manifests/" + a1.D}).Status
+	if g := do(vh.Req{Method: "GET", URL: "/v2/c/referrers/" + img.D}); s1 != 201 || s2 != 202 || strings.TrimSpace(string(g.Body)) != string(E) {
+		r.Count("collision_trials_without_collision", 1) // the generated answer has other bytes: nothing to decide
+		return
+	}
+	if !before && !pushE() {
+		r.Inconclusive("responseCollision: empty index refused")
+		return
+	}
+	if byTag {
+		if do(vh.Req{Method: "DELETE", URL: "/v2/c/manifests/scratch"}).Status != 202 {
+			r.Inconclusive("responseCollision: tag delete refused")
+			return
+		}
+	}
+	check := func(when string) bool {
+		g := do(vh.Req{Method: "GET", URL: "/v2/c/manifests/" + ED, H: acc})
+		r.Count("collision_reads", 1)
+		if g.Status != 200 || string(g.Body) != string(E) {
+			wit["requests"] = trace
+			r.Violation("acknowledged-manifest-lost:response-collision", fmt.Sprintf("%s store: the empty OCI index was pushed (201, %s) and never deleted; %s GET by its digest answers %d - its index entry was taken over by, and then removed with, the referrers answer of an unrelated subject, which has the same bytes", kind, map[bool]string{true: "under a tag that was deleted afterwards", false: "by digest"}[byTag], when, g.Status), wit)
+			return false
+		}
+		return true
+	}
+	if !check("right after,") {
+		return
+	}
+	if reload && kind == vh.Dir {
+		time.Sleep(1100 * time.Millisecond)
+	}
+	a2 := art(2)
+	do(vh.Req{Method: "PUT", URL: "/v2/c/manifests/" + a2.D, H: map[string]string{"Content-Type": a2.MT}, Body: a2.Raw})
+	if !check("after another referrer of that subject was pushed,") {
+		return
+	}
+	do(vh.Req{Method: "DELETE", URL: "/v2/c/manifests/" + a2.D})
+	a3 := art(3)
+	do(vh.Req{Method: "PUT", URL: "/v2/c/manifests/" + a3.D, H: map[string]string{"Content-Type": a3.MT}, Body: a3.Raw})
+	check("after the subject's referrers went to none and back to one,")
+	r.Count("collision_trials", 1)
+	r.Distinct("collision_cells", fmt.Sprint(kind, byTag, before))
+}
+
 func main() {
 	r := vh.Start()
 	focus := r.Focus
@@ -738,6 +833,9 @@ func main() {
 			limitCases(r, i-n)
 		}
 	})
+	nc := r.N(24, 240)
+	vh.Parallel(nc, 12, func(i int) { responseCollision(r, i) })
+	r.Require("collision_trials", int64(nc/2))
 	r.Require("histories", int64(n))
 	r.Require("snapshots_compared", int64(n*10))
 	if focus == "C02" {
